@@ -391,6 +391,7 @@ def accepts (v : View) (p : PView) (kind : String) (arg : Int) : Bool :=
 
 /-- well-formedness of a resting hand state, as pokertable relies on it -/
 def wf (v : View) : Bool :=
+  decide (0 ≤ v.prev) && decide (0 ≤ v.wager) && decide (0 ≤ v.mini) &&
   v.players.all (fun p => p.stack == p.init - p.wager && decide (0 ≤ p.wager) && decide (p.wager ≤ p.init) && decide (0 ≤ p.stack)) &&
   ((List.range v.players.length).zip v.players).all (fun e => e.2.idx == e.1) &&
   (if v.event == "RoundStarted" then
